@@ -147,6 +147,16 @@ def layer_rule_histories(ctx, maxlen, prop="C16"):
             cases.append(lr_case(ch[:k] + ch[k + 1 :]))
     judge_layer_histories(ctx, s, cases, prop)
     s.finish()
+    s = Stream(ctx, "LayerRule: one rule object used for a second rule - a complete chain, layers_that() again, then every continuation of length <= 3",
+               exhaustive=True)
+    cases = []
+    for ch in COMPLETE_LR:
+        for L in range(0, 4):
+            for seq in itertools.product(LRVOCAB, repeat=L):
+                cases.append(lr_case(ch + [("lt", None)] + list(seq)))
+    for i in range(0, len(cases), 50000):
+        judge_layer_histories(ctx, s, cases[i : i + 50000], prop)
+    s.finish()
 
 
 def run(ctx: Ctx):
@@ -171,7 +181,8 @@ def run(ctx: Ctx):
         for _ in range(n):
             k = rng.randrange(6)
             if k == 0:
-                seq.append(("layer", rng.choice(["a", "b", "c", "mod"])))
+                # also names that are falsy or blank as Python values: they are layer names like any other
+                seq.append(("layer", rng.choice(["a", "b", "c", "mod", "", "0", " "])))
             elif k == 1:
                 seq.append(("cms", rng.choice(names)))
             elif k == 2:
